@@ -175,6 +175,8 @@ def check_finish_window(ctx, cfg, rule="C04.F", only=None):
             def hands_on(c):
                 if c.key in ("IntrusiveArrayBuilder<$0,$1>::array_assume_init", "GenericArray<$0,$1>::assume_init") or c.fn.endswith("::from_raw"):
                     return True
+                if c.fn.startswith("alloc::boxed::Box::<core::mem::MaybeUninit<T>") and c.fn.endswith("::assume_init") and bool(c.targs) and c.targs[0].get("k") == "adt" and c.targs[0]["def"].split("::")[-1] == "GenericArray":
+                    return True   # Box<MaybeUninit<GenericArray<..>>>::assume_init: the boxed storage handed on as the finished array (a re-typing of the box)
                 return c.fn == "core::mem::MaybeUninit::<T>::assume_init" and bool(c.targs) and c.targs[0].get("k") == "adt" and c.targs[0]["def"].split("::")[-1] == "GenericArray"
             closers = [c for c in a.calls if hands_on(c) and a.dominates(f.bb, c.bb) and c.bb != f.bb]
             bad = []
